@@ -134,7 +134,7 @@ def run_tlc_mc(name, module, cfg, workers=8, timeout=3600, coverage=True, extra=
         info["vacuous_actions"] = [a for a in expect_actions if actions.get(a, 0) == 0]
     if not info["completed"] and not info["violated"] and not timed_out:
         info["tail"] = out[-3000:]
-    info["prints"] = [l for l in out.splitlines() if (l.startswith('"') or l.startswith("<<")) and not l.startswith('"ACT|')][:2000]
+    info["prints"] = [l for l in out.splitlines() if (l.startswith('"') or l.startswith("<<")) and not l.startswith('"ACT|')][:400000]
     return info
 
 
